@@ -798,3 +798,5 @@ class History(object):
 #   c11-mode-read-newer-evidence-off-by-one   evidence threshold highest+1                                caught  same key
 #   seeded/C11-3 (Publish.update(): version[0]+1)                      caught  publish-seqnum-not-above-every-seqnum-its-survey-saw  (op update, family update-vs-newer)
 #   seeded/C11-4 (_modify_once keeps a still-recoverable held version)  caught  modify-read-a-version-that-is-not-the-best-its-survey-located  (op held-modify)
+#   seeded/C11-5 (forced repair marks the lost version's shares bad)    caught  publish-seqnum-not-above-every-seqnum-its-survey-saw  (op repair-forced)
+#   seeded/C11-6 (retry re-updates the failed attempt's servermap)       caught  read-returned-older-than-best-located-version  (family thin-newest-flaky; a retried read is judged on its last survey)
